@@ -762,10 +762,12 @@ func checkValueNotifier(r *Reporter, p *Prog) {
 		n, ok := 0, true
 		for _, hc := range lfn.Calls(func(cl *ast.CallExpr) bool { return rawKey(cl.Fun) == "newListener" }) {
 			for _, a := range hc.Args {
-				lit, isLit := ast.Unparen(a).(*ast.FuncLit)
-				if !isLit {
+				// a literal, or a method of a registration struct handed over as a method value
+				cbs := callbacksIn(p, info, a)
+				if len(cbs) != 1 {
 					continue
 				}
+				lit := cbs[0]
 				ast.Inspect(lit.Body, func(nd ast.Node) bool {
 					cl, isCall := nd.(*ast.CallExpr)
 					if !isCall || !strings.HasSuffix(exprKey(cl.Fun), ".removeListener") {
